@@ -1,4 +1,5 @@
 import collections
+import itertools
 import typing as tp
 
 from cirbo.core.circuit import (
@@ -156,20 +157,22 @@ def _process_nor(cnf: CnfRaw, top_lit: Lit, lits: list[Lit]):
     cnf.append(common)
 
 
+def _process_parity(cnf: CnfRaw, top_lit: Lit, lits: list[Lit], negate: bool):
+    # One clause per assignment of the operands, forbidding the wrong value of
+    # `top_lit`. Works for any number of operands (XOR and NXOR are n-ary folds).
+    for values in itertools.product((True, False), repeat=len(lits)):
+        parity = (sum(values) % 2 == 1) != negate
+        clause = [-lit if value else lit for lit, value in zip(lits, values)]
+        clause.append(top_lit if parity else -top_lit)
+        cnf.append(clause)
+
+
 def _process_xor(cnf: CnfRaw, top_lit: Lit, lits: list[Lit]):
-    a, b, c = lits[0], lits[1], top_lit
-    cnf.append([-a, -b, -c])
-    cnf.append([-a, b, c])
-    cnf.append([a, -b, c])
-    cnf.append([a, b, -c])
+    _process_parity(cnf, top_lit, lits, negate=False)
 
 
 def _process_nxor(cnf: CnfRaw, top_lit: Lit, lits: list[Lit]):
-    a, b, c = lits[0], lits[1], top_lit
-    cnf.append([-a, -b, c])
-    cnf.append([-a, b, -c])
-    cnf.append([a, -b, -c])
-    cnf.append([a, b, c])
+    _process_parity(cnf, top_lit, lits, negate=True)
 
 
 def _process_gt(cnf: CnfRaw, top_lit: Lit, lits: list[Lit]):
